@@ -221,6 +221,9 @@ func Coordinate(c *Ctx, ck *Check) int {
 				stdout, _ := cmd.StdoutPipe()
 				var errBuf strings.Builder
 				cmd.Stderr = &limitedWriter{w: &errBuf, n: 1 << 16}
+				if os.Getenv("VERIF_DEBUG") != "" {
+					cmd.Stderr = os.Stderr
+				}
 				if err := cmd.Start(); err != nil {
 					mu.Lock()
 					crashes = append(crashes, "cannot start worker: "+err.Error())
